@@ -235,6 +235,7 @@ type t2g struct {
 	nest  int
 	nsubr int // subroutines used so far
 	small bool
+	preDepth, lastOpLen int // operands on the stack at / byte length of the operator emitted last
 	pure  bool // stay inside the static grammar: no subroutines, no value-dependent operators, canonical literals
 	noWF  bool // outside the static grammar WF of Spec/T2.lean (subroutine, value-dependent operator, non-canonical or big literal)
 	noAgr bool // uses add / sub / mul / flex1 / hflex1 (outside `Agrees`)
@@ -288,7 +289,19 @@ func (g *t2g) lit(v int64) {
 	g.depth++
 }
 
+// litCanon pushes a literal in its canonical (shortest) encoding: the deciding operand of a
+// value-dependent operator must be a `Tok.lit` of the grammar
+func (g *t2g) litCanon(v int64) {
+	g.emit(t2num(v, 0)...)
+	g.depth++
+}
+
 func (g *t2g) opb(op int) {
+	g.preDepth = g.depth
+	g.lastOpLen = 1
+	if op >= 256 {
+		g.lastOpLen = 2
+	}
 	if op >= 256 {
 		g.emit(12, byte(op))
 	} else {
@@ -308,7 +321,7 @@ func (g *t2g) operand(v int64) {
 	st := func(n string) { g.c.Stat("t2.expression", n) }
 	small := func(x int64) bool { return x > -32000*65536 && x < 32000*65536 }
 	k := r.Intn(17)
-	if g.pure && (k == 4 || k == 5 || k == 8 || k == 11 || k == 12 || k == 14) {
+	if g.pure && k == 14 {
 		k = Pick(r, []int{2, 3, 6, 7, 9, 10, 13})
 	}
 	switch k {
@@ -354,9 +367,8 @@ func (g *t2g) operand(v int64) {
 		b := Pick(r, []int64{2, 4, -2, 8, 1, -1, 256})
 		if small(v * b) {
 			st("div")
-			g.noWF = true
 			g.operand(v * b)
-			g.lit(b * 65536)
+			g.litCanon(b * 65536)
 			g.opb(0x0c0c)
 			g.depth--
 			return
@@ -364,9 +376,8 @@ func (g *t2g) operand(v int64) {
 	case 5:
 		if v >= 0 && v%65536 == 0 && v/65536 <= 170 {
 			st("sqrt")
-			g.noWF = true
 			k := v / 65536
-			g.operand(k * k * 65536)
+			g.litCanon(k * k * 65536)
 			g.opb(0x0c1a)
 			return
 		}
@@ -386,13 +397,13 @@ func (g *t2g) operand(v int64) {
 		return
 	case 8:
 		st("put-get")
-			g.noWF = true
+		g.noAgr = true // get: inside WF (literal index written before), outside Agrees
 		m := int64(r.Range(0, 31))
 		g.operand(v)
-		g.lit(m * 65536)
+		g.litCanon(m * 65536)
 		g.opb(0x0c14)
 		g.depth -= 2
-		g.lit(m * 65536)
+		g.litCanon(m * 65536)
 		g.opb(0x0c15)
 		return
 	case 9:
@@ -455,14 +466,13 @@ func (g *t2g) operand(v int64) {
 		}
 	case 11:
 		st("index")
-			g.noWF = true
 		// v x y  2 index -> v x y v ; then keep only the copy: exch drop exch drop ... simpler: v 0 index exch drop
 		g.operand(v)
 		i := int64(0)
 		if r.Bool() {
 			i = -int64(r.Range(1, 3))
 		}
-		g.lit(i * 65536)
+		g.litCanon(i * 65536)
 		g.opb(0x0c1d)
 		g.opb(0x0c1c)
 		g.opb(0x0c12)
@@ -470,14 +480,13 @@ func (g *t2g) operand(v int64) {
 		return
 	case 12:
 		st("roll")
-			g.noWF = true
 		// v x y 3 1 roll -> y v x ; drop -> y v ; exch drop -> v
 		g.operand(v)
 		g.lit(g.value())
 		g.lit(g.value())
-		g.lit(3 * 65536)
+		g.litCanon(3 * 65536)
 		j := Pick(r, []int64{1, -2, 4, -5})
-		g.lit(j * 65536)
+		g.litCanon(j * 65536)
 		g.opb(0x0c1e)
 		g.depth -= 2
 		g.opb(0x0c12)
@@ -571,9 +580,15 @@ func (g *t2g) maybeWrap(from int) {
 	if (g.env.ns == 0 && g.env.ng == 0) || !g.r.Chance(1, 6) || g.depth+1 > 48 {
 		return
 	}
+	kind := "operands+operator in subr"
+	if g.r.Bool() && g.preDepth+1 <= 48 && g.lastOpLen <= len(g.buf)-from {
+		// only the operator goes into the subroutine; its operands are pushed by the caller
+		from = len(g.buf) - g.lastOpLen
+		kind = "operator only in subr (operands pushed by the caller)"
+	}
 	body := append(append([]byte{}, g.buf[from:]...), 11)
 	g.buf = g.buf[:from]
-	g.c.Stat("t2.subr-use", "operator-in-subr")
+	g.c.Stat("t2.subr-use", kind)
 	g.call(body)
 }
 
@@ -963,9 +978,9 @@ func genT2(c *Ctx) {
 				c.Stat("t2.theorem-domain", "WF and Agrees (C05_progress + C05_quirks_irrelevant apply)")
 			case p.wf:
 				dom = "wf"
-				c.Stat("t2.theorem-domain", "WF only (C05_progress applies; add/sub/mul/flex1/hflex1 present)")
+				c.Stat("t2.theorem-domain", "WF only (C05_progress applies; add/sub/mul/flex1/hflex1/get present)")
 			default:
-				c.Stat("t2.theorem-domain", "outside WF (div/sqrt/put/get/index/roll, non-canonical or big literal, free-mode program)")
+				c.Stat("t2.theorem-domain", "outside WF (non-literal deciding operand, non-canonical or big literal, free-mode program)")
 			}
 			if p.nsubr > 0 {
 				c.Stat("t2.theorem-domain-calls", dom+" with "+bucket(p.nsubr)+" subroutine calls")
@@ -1683,20 +1698,42 @@ func init() {
 func t2glyphCases(c *Ctx, args string, kind string, nt bool) {
 	f := parseFields(args)
 	g, dw, nw := t2parseGlyph(f)
-	code, err := cff.VerifT2EncodeCharString(g, dw, nw)
-	if err != nil {
-		c.Stat("t2enc.encode-error", err.Error())
+	// every call into the library from generator code is guarded: a panicking encoder must become a case
+	// outcome (a V/D mismatch with this concrete glyph), never a crash of the harness
+	var code []byte
+	var encErr error
+	paths := ""
+	pmsg := guard(func() string {
+		code, encErr = cff.VerifT2EncodeCharString(g, dw, nw)
+		if encErr != nil {
+			return ""
+		}
+		for _, r := range t2runs(g.Cmds) {
+			for _, e := range cff.VerifT2ChosenPathRange(g.Cmds, r[0], r[1]) {
+				c.Stat("t2enc.chosen-operator", fmt.Sprint(t2edgeOp(e)))
+			}
+		}
+		paths = t2chosenPaths(g.Cmds)
+		return ""
+	})
+	if pmsg != "" {
+		// the real encoder panicked on a glyph of the domain: emit the lines anyway; their handlers re-run the
+		// encoder under Exec's guard and report "panic:…", which the model / the specification do not
+		c.Stat("t2enc.ENCODER-PANIC", pmsg)
+		c.Case(Verdict, "t2.encargs", args, nt)
+		c.Case(Verdict, "t2.edges", args, nt)
+		c.Case(Verdict, "t2.asm", args+" paths=", nt)
+		c.Case(kind, "t2.rt", "code=0e "+args, nt)
+		return
+	}
+	if encErr != nil {
+		c.Stat("t2enc.encode-error", encErr.Error())
 		return
 	}
 	c.Stat("t2enc.charstring-bytes", bucket(len(code)))
-	for _, r := range t2runs(g.Cmds) {
-		for _, e := range cff.VerifT2ChosenPathRange(g.Cmds, r[0], r[1]) {
-			c.Stat("t2enc.chosen-operator", fmt.Sprint(t2edgeOp(e)))
-		}
-	}
 	c.Case(Verdict, "t2.encargs", args, nt)
 	c.Case(Verdict, "t2.edges", args, nt)
-	c.Case(Verdict, "t2.asm", args+" paths="+t2chosenPaths(g.Cmds), nt)
+	c.Case(Verdict, "t2.asm", args+" paths="+paths, nt)
 	c.Case(kind, "t2.rt", "code="+hx(code)+" "+args, nt)
 }
 
